@@ -377,7 +377,7 @@ fn execute_info(file: &str, detailed: bool) -> Result<()> {
             add_chunk_row(&mut table, &chunk_type.as_str(), count);
         }
 
-        table.printstd();
+        table.print_tty(false)?;
     }
 
     Ok(())
